@@ -251,6 +251,9 @@ class Report:
         self.findings = load_findings()
         self.replay_dir = os.path.join(OUT, "replay", prop)
         os.makedirs(self.replay_dir, exist_ok=True)
+        for f in os.listdir(self.replay_dir):          # replay files of earlier runs of this tier are stale
+            if f.startswith(tier_ + "-"):
+                os.unlink(os.path.join(self.replay_dir, f))
         self.nrep = 0
 
     def add_mc(self, name, res, note="", expect_error=None):
